@@ -17,6 +17,7 @@ import (
 	"strconv"
 	"strings"
 	"sync"
+	"syscall"
 	"time"
 )
 
@@ -740,6 +741,20 @@ func trunc(s string, n int) string {
 		return s[:n] + "…"
 	}
 	return s
+}
+
+// ReexecIn replaces this process by the group binary named by env variable envVar
+// (set by ./v for a check's extra_groups) unless this process already is that
+// binary.  Used to replay a schedule witness in the overlay build it came from.
+func ReexecIn(envVar string) {
+	exe := os.Getenv(envVar)
+	self, _ := os.Executable()
+	if exe == "" || exe == self {
+		return
+	}
+	if err := syscall.Exec(exe, append([]string{exe}, os.Args[1:]...), os.Environ()); err != nil {
+		Fatal("cannot re-exec in %s: %v", exe, err)
+	}
 }
 
 // ReplayCase loads the "case" member of a replay file into v.
